@@ -428,3 +428,60 @@ Definition check_hs (c : hs) : bool :=
     read_handshakes toy_stream (toy_cbc_dec (kind_bs k)) (toy_open (kind_ovh k) w) (toy_mac (kind_ms k))
                     calls t_unm rc buf in
   list_eqb (prod_eqb Z.eqb Z.eqb) msgs l && (cls =? e).
+
+(* ------------------------------------------------------------ post-handshake KeyUpdate: lock discipline *)
+(* conn.go Read -> handlePostHandshakeMessage -> handleKeyUpdate, as a summary of
+   what it does to c.out: Lock / Unlock, the write of the answer (which fails or
+   not with the transport), the sticky c.out.err.  Locking c.out while it is
+   held is a self-deadlock (sync.Mutex is not reentrant): None. *)
+Record lk := { out_held : bool; out_err : bool }.
+Definition lock_out (s : lk) : option lk :=
+  if out_held s then None else Some {| out_held := true; out_err := out_err s |}.
+Definition unlock_out (s : lk) : lk := {| out_held := false; out_err := out_err s |}.
+
+(* handleKeyUpdate(keyUpdate): the read key is switched; if update_requested,
+   c.out.Lock(); defer Unlock; writeRecordLocked(answer); on failure
+   c.out.setErrorLocked(err) (no locking) and return nil; else switch the write key *)
+Definition handle_key_update (requested write_fails : bool) (s : lk) : option lk :=
+  if requested then
+    match lock_out s with
+    | None => None
+    | Some s1 =>
+        if write_fails
+        then Some (unlock_out {| out_held := out_held s1; out_err := true |})
+        else Some (unlock_out s1)
+    end
+  else Some s.
+
+Inductive pout := PReturns (read_end : Z) (write_failed : bool) | PDeadlock.
+
+(* Read until the transport ends (every KeyUpdate in its own record: the retry
+   count never passes 1), then one Write *)
+Fixpoint post_reads (acts : list bool) (write_fails : bool) (s : lk) : option lk :=
+  match acts with
+  | [] => Some s
+  | r :: rest =>
+      match handle_key_update r write_fails s with
+      | None => None
+      | Some s' => post_reads rest write_fails s'
+      end
+  end.
+Definition post_run (acts : list bool) (write_fails : bool) : pout :=
+  match post_reads acts write_fails {| out_held := false; out_err := false |} with
+  | None => PDeadlock
+  | Some s =>
+      (* Write: c.out.Lock(); if c.out.err != nil return it; writeRecordLocked *)
+      match lock_out s with
+      | None => PDeadlock
+      | Some s1 => PReturns 0 (out_err s1 || write_fails)
+      end
+  end.
+
+(* stream post: (update_requested flags, writes fail, observed: Read returned, its end class, Write failed) *)
+Definition post := (list bool * bool * (bool * Z * bool))%type.
+Definition check_post (c : post) : bool :=
+  let '(acts, wf, (returned, cls, werr)) := c in
+  match post_run acts wf with
+  | PDeadlock => negb returned
+  | PReturns e w => returned && (cls =? e) && Bool.eqb werr w
+  end.
